@@ -35,6 +35,7 @@ type Result struct {
 	Produced             int64             `json:"produced"`
 	ProducedO            int64             `json:"produced_output"`
 	ProducedE            int64             `json:"produced_error"`
+	AsyncSinkWrites      int64             `json:"async_sink_writes"`
 	FramingJudged        int64             `json:"framing_judged"`
 	FramingNotCalibrated int64             `json:"framing_not_calibrated"`
 	Verified             int64             `json:"verified"`   // (group, id) pairs found with exactly the expected multiplicity, intact
@@ -489,6 +490,16 @@ func runChild(c Case, res *Result) {
 	}
 	if b.async {
 		judgeAsync(c, b, per[0], res)
+		// the ring hands the messages to the slow writer from ONE goroutine: a writer which is not goroutine-safe is fine behind it
+		for i, s := range b.asyncRecs {
+			res.AsyncSinkWrites += s.writes.Load()
+			if n := s.overlaps.Load(); n > 0 {
+				res.Findings = append(res.Findings, Finding{Sig: sig(c, b.groups[0], "slow-writer-entered-concurrently", "concurrent"),
+					What:    fmt.Sprintf("%s (ring %d): the slow writer #%d behind the ring buffer was entered %d time(s) while another of its Write calls was still running", c.Ctor, c.Ring, i, n),
+					Witness: map[string]any{"case": c, "overlapping_writes": n}})
+				break
+			}
+		}
 	}
 	if err := lg.Close(); err != nil {
 		res.Notes = append(res.Notes, "Close(): "+err.Error())
@@ -508,6 +519,9 @@ func sig(c Case, g *group, effect, phase string) map[string]string {
 }
 
 func judgeGroup(c Case, b *built, g *group, pp *parsed, all [][]msg, masks [][]uint8, calibrated bool, res *Result) {
+	if g.unjudged {
+		return
+	}
 	// sequential multiplicity of this group, per stream
 	k := [2]int{1, 1}
 	fromOK := func(p int) bool { return g.from == nil || g.from(p) }
